@@ -452,7 +452,10 @@ func C09(c *Ctx) *kf.Report {
 		"Go channel wait queues are FIFO (modelled as sq/rq)",
 		"ChannelRef = unbounded FIFO queue with close; blocked-forever calls may or may not take effect",
 		"race detector reports are accepted as evidence of a data race as is",
+		"the script-facing class (new Channel, ->send/receive/close/len/cap/isClosed) is replayed sequentially only: paths of ChannelObjs.tla whose steps cannot block; schedules are decided at the Go API, which the class methods delegate to",
 	}
+	// script-facing layer first (subprocess workers, no hooks): several Channel objects, one coroutine
+	c09Objects(c, rep)
 	installChannelHook()
 	cfgs := []c09Cfg{
 		{[]string{"p1", "p2"}, []string{"c1"}, []string{"k1"}, 0, 2, 2},
@@ -569,7 +572,7 @@ func C09(c *Ctx) *kf.Report {
 	rep.Coverage["distinct_nontrivial"] = overlaps
 	rep.Coverage["edges_total"] = edgesTotal
 	rep.Coverage["edges_covered"] = edgesCovered
-	rep.Coverage["rule"] = "controlled-scheduler walks over the mechanism graph (every step forced at the hooks' yield points, outcome compared with the model's edges), histories of all walks and of free-running -race stress validated against ChannelRef by TLC; non-trivial = walks in which a close step ran while a send was in flight"
+	rep.Coverage["rule"] = "every path of ChannelObjs.tla (two Channel objects of capacity 1..2 created, used and closed by one coroutine, every step's result and len/cap/isClosed of every object compared); controlled-scheduler walks over the mechanism graph (every step forced at the hooks' yield points, outcome compared with the model's edges), histories of all walks and of free-running -race stress validated against ChannelRef by TLC; non-trivial = walks in which a close step ran while a send was in flight"
 	if len(samples) == 0 {
 		samples = append(samples, "none")
 	}
